@@ -884,6 +884,21 @@ def preserve_context(f):
     return restore_eliot_context
 
 
+def _start_action_with_fields(action_type, fields):
+    """
+    Like C{start_action(action_type=action_type, **fields)}, except that
+    C{fields} may use any names, including those of L{start_action}'s own
+    parameters (C{logger}, C{action_type}, C{_serializers}).
+    """
+    parent = current_action()
+    if parent is None:
+        action = Action(None, str(uuid4()), TaskLevel(level=[]), action_type)
+    else:
+        action = parent.child(None, action_type)
+    action._start(dict(fields))
+    return action
+
+
 def log_call(
     wrapped_function=None, action_type=None, include_args=None, include_result=True
 ):
@@ -933,7 +948,7 @@ def log_call(
         if include_args is not None:
             callargs = {k: callargs[k] for k in include_args}
 
-        with start_action(action_type=action_type, **callargs) as ctx:
+        with _start_action_with_fields(action_type, callargs) as ctx:
             result = wrapped_function(*args, **kwargs)
             if include_result:
                 ctx.add_success_fields(result=result)
